@@ -82,6 +82,9 @@ def solve_text(args):
     tried = []
     has_q = "(forall" in text or "(exists" in text
     r, model, backend = "unknown", None, "z3-5.1"
+    if kind == "cover":
+        rc, dtc, _ = _run_z3_api(text, 4000)
+        return idx, {"sat": "discharged", "unsat": "vacuous"}.get(rc, "undecided"), "z3-5.1", dtc, None, [("z3-5.1", rc, round(dtc, 3))], None
     if has_q:
         # e-matching only first: proves most quantified goals at once; a `sat` answer without MBQI is not trusted
         r1, dt1, _ = _run_z3_api(text, min(Z3_TIMEOUT_MS, 5000), mbqi=False)
